@@ -171,6 +171,26 @@ func (d *Disk) WriteRaw(p string, data []byte) {
 	parent.children[filepath.Base(p)] = &node{name: filepath.Base(p), data: append([]byte(nil), data...), mtime: d.now()}
 }
 
+// DetachRaw unlinks a file and returns a function that links the very same file (content and
+// modification time untouched) back under its name: what `mv f f.bak; …; mv f.bak f` does.
+//
+//go:norace
+func (d *Disk) DetachRaw(p string) (reattach func(), ok bool) {
+	p = clean(p)
+	parent := d.lookup(filepath.Dir(p))
+	if parent == nil || parent.children[filepath.Base(p)] == nil {
+		return nil, false
+	}
+	n := parent.children[filepath.Base(p)]
+	delete(parent.children, filepath.Base(p))
+	d.Journal = append(d.Journal, Op{len(d.Journal), "external-move-away", p, 0, simrt.Elapsed()})
+	return func() {
+		d.MkdirAllRaw(filepath.Dir(p))
+		d.lookup(filepath.Dir(p)).children[filepath.Base(p)] = n
+		d.Journal = append(d.Journal, Op{len(d.Journal), "external-move-back", p, len(n.data), simrt.Elapsed()})
+	}, true
+}
+
 //go:norace
 func (d *Disk) ReadRaw(p string) ([]byte, bool) {
 	n := d.lookup(p)
